@@ -62,7 +62,36 @@ def merge(raw):
         out.extend(h for h, _ in exps.values())
     if chain:
       out.append(prefix + chain)
+  # interleave by final action so that the first reports of a failing run show
+  # every kind of failure, not fifty copies of the most frequent one
+  by = defaultdict(list)
+  for b in out:
+    by[b[-1]["a"]].append(b)
+  lists = [by[k] for k in sorted(by)]
+  n = max(len(l) for l in lists)
+  out = [l[i] for i in range(n) for l in lists if i < len(l)]
   return out, nalt
+
+
+def compact(ctx):
+  """Keep one reported violation (with its replay file content) per distinct
+  signature.  The engine keeps replay data for the first 50 reports only; an
+  exhaustive replay reports the same defect thousands of times, which would
+  hide every other signature.  The total number is kept in the evidence."""
+  seen, keep = set(), []
+  counts = ctx.notes.setdefault("mismatches_per_signature", {})
+  for sig, rep in ctx.violations[ctx.notes.get("_kept", 0):]:
+    counts[core.canon(sig)] = counts.get(core.canon(sig), 0) + 1
+  for sig, rep in ctx.violations:
+    k = core.canon(sig)
+    if k in seen or rep is None:
+      continue
+    seen.add(k)
+    keep.append((sig, rep))
+  ctx.notes["mismatching_behaviours_total"] = \
+      ctx.notes.get("mismatching_behaviours_total", 0) + len(ctx.violations) - ctx.notes.get("_kept", 0)
+  ctx.violations[:] = keep
+  ctx.notes["_kept"] = len(keep)
 
 
 def run(ctx):
@@ -123,6 +152,7 @@ def run(ctx):
       ctx.notes["replay_%s_v%d" % (cfg[:-4], v)] = dict(
           behaviours=len(behs), transitions=len(raw),
           final_step_alternatives=nalt, **st)
+      compact(ctx)
 
   # 3. code -> spec
   ntr, length = (150, 60) if quick else (3000, 80)
@@ -149,6 +179,8 @@ def run(ctx):
     ctx.report(sig, dict(trace=traces[t][:matched + 1], failing_step=matched,
                          note="TLC rejected the trace at this event: no behaviour of "
                               "Handshake.tla produces this observation"))
+  compact(ctx)
+  ctx.notes.pop("_kept", None)
   ctx.traces += len(traces)
   for t in traces:
     ctx.case(core.fp([[e["a"], e["args"]] for e in t]), sample=None)
